@@ -32,6 +32,8 @@ pub enum Variant {
     RoundTrip,
     /// an extra attribute is inserted at this rank of this dimension, then deleted, before the update
     DeletedExtra { dim: usize, rank: usize },
+    /// the attribute at this rank of this dimension is created under another name and renamed
+    Renamed { dim: usize, rank: usize },
 }
 
 #[derive(Clone, Debug)]
@@ -54,6 +56,7 @@ impl StructSpec {
                 Variant::Plain => String::new(),
                 Variant::RoundTrip => " [master key round-tripped]".to_string(),
                 Variant::DeletedExtra { dim, rank } => format!(" [extra attribute inserted at rank {rank} of {} then deleted]", self.dims[*dim].name),
+                Variant::Renamed { dim, rank } => format!(" [attribute at rank {rank} of {} created as 'tmp' and renamed]", self.dims[*dim].name),
             }
     }
     pub fn omega(&self) -> usize {
@@ -211,6 +214,9 @@ pub fn enumerate_structures(thorough: bool) -> Vec<StructSpec> {
                             for rank in ranks {
                                 out.push(StructSpec { dims: dims.clone(), variant: Variant::DeletedExtra { dim: di, rank } });
                             }
+                            for rank in 0..d.attrs.len() {
+                                out.push(StructSpec { dims: dims.clone(), variant: Variant::Renamed { dim: di, rank } });
+                            }
                         }
                     }
                 }
@@ -327,6 +333,12 @@ pub fn build(spec: &StructSpec) -> Result<Built, String> {
                 .map_err(|e| e.to_string())?;
             inserted.push(ai);
         }
+    }
+    if let Variant::Renamed { dim, rank } = &spec.variant {
+        // rename away and back: the attribute must keep its rank, id, hint
+        let d = &spec.dims[*dim];
+        msk.access_structure.rename_attribute(&QualifiedAttribute::new(&d.name, &d.attrs[*rank]), "tmp".to_string()).map_err(|e| e.to_string())?;
+        msk.access_structure.rename_attribute(&QualifiedAttribute::new(&d.name, "tmp"), d.attrs[*rank].clone()).map_err(|e| e.to_string())?;
     }
     if let Variant::DeletedExtra { dim, rank } = &spec.variant {
         let d = &spec.dims[*dim];
